@@ -64,6 +64,23 @@ func (i *input) Next() byte {
 	return chr
 }
 
+// grow returns tok with the next input byte added. A token is a run of
+// input bytes: as long as it still ends where the input stands it is
+// re-sliced from the input (*start is where it began) rather than copied
+// with one more byte at its end - that made a token of n bytes cost n*n/2
+// byte copies, and a 2 KiB .deb whose gzipped control file unfolds to a
+// Depends of one 512 KiB token kept deb.Load busy for eight minutes.
+func (i *input) grow(tok string, start *int) string {
+	if tok == "" {
+		*start = i.Index
+	}
+	if *start+len(tok) == i.Index && i.Index < len(i.Data) {
+		i.Index++
+		return i.Data[*start:i.Index]
+	}
+	return tok + string([]byte{i.Next()})
+}
+
 // }}}
 
 // Parse Helpers {{{
@@ -165,6 +182,7 @@ func parsePossibility(input *input, relation *Relation) error {
 		StageSets:     []StageSet{},
 		Substvar:      false,
 	}
+	nameAt := 0 /* where ret.Name starts in the input */
 
 	for {
 		peek := input.Peek()
@@ -192,7 +210,7 @@ func parsePossibility(input *input, relation *Relation) error {
 			return nil
 		}
 		/* Not a control, let's append */
-		ret.Name += string([]byte{input.Next()})
+		ret.Name = input.grow(ret.Name, &nameAt)
 	}
 }
 
@@ -208,6 +226,7 @@ func parseSubstvar(input *input, relation *Relation) error {
 		Version:  nil,
 		Substvar: true,
 	}
+	nameAt := 0
 
 	for {
 		peek := input.Peek()
@@ -227,14 +246,14 @@ func parseSubstvar(input *input, relation *Relation) error {
 			}
 			return fmt.Errorf("Trailing garbage after a substvar: %c", input.Peek())
 		}
-		ret.Name += string([]byte{input.Next()})
+		ret.Name = input.grow(ret.Name, &nameAt)
 	}
 }
 
 /* */
 func parseMultiarch(input *input, possi *Possibility) error {
 	input.Next() /* mandated to be a : */
-	name := ""
+	name, nameAt := "", 0
 	for {
 		peek := input.Peek()
 		switch peek {
@@ -249,7 +268,7 @@ func parseMultiarch(input *input, possi *Possibility) error {
 			possi.Arch = arch
 			return nil
 		default:
-			name += string([]byte{input.Next()})
+			name = input.grow(name, &nameAt)
 		}
 	}
 	return nil
@@ -374,6 +393,7 @@ func parsePossibilityOperator(input *input, version *VersionRelation) error {
 /* */
 func parsePossibilityNumber(input *input, version *VersionRelation) error {
 	eatWhitespace(input)
+	numberAt := 0
 	for {
 		peek := input.Peek()
 		switch peek {
@@ -398,7 +418,7 @@ func parsePossibilityNumber(input *input, version *VersionRelation) error {
 			}
 			return nil
 		}
-		version.Number += string([]byte{input.Next()})
+		version.Number = input.grow(version.Number, &numberAt)
 	}
 }
 
@@ -428,7 +448,7 @@ func parsePossibilityArchs(input *input, possi *Possibility) error {
 /* */
 func parsePossibilityArch(input *input, possi *Possibility) error {
 	eatWhitespace(input)
-	arch := ""
+	arch, archAt := "", 0
 
 	// Exclamation marks may be prepended to each of the names. (It is not
 	// permitted for some names to be prepended with exclamation marks while
@@ -468,7 +488,7 @@ func parsePossibilityArch(input *input, possi *Possibility) error {
 			)
 			return nil
 		}
-		arch += string([]byte{input.Next()})
+		arch = input.grow(arch, &archAt)
 	}
 }
 
@@ -504,6 +524,7 @@ func parsePossibilityStage(input *input, stageSet *StageSet) error {
 	eatWhitespace(input)
 
 	stage := Stage{}
+	nameAt := 0
 	for {
 		peek := input.Peek()
 		switch peek {
@@ -530,7 +551,7 @@ func parsePossibilityStage(input *input, stageSet *StageSet) error {
 			stageSet.Stages = append(stageSet.Stages, stage)
 			return nil
 		}
-		stage.Name += string([]byte{input.Next()})
+		stage.Name = input.grow(stage.Name, &nameAt)
 	}
 }
 
